@@ -1396,9 +1396,13 @@ impl Writer {
         self.history_buffer.first_change_sequence_number(),
       )
     } else {
-      // Stateless-like writer currently supports only BestEffort behavior, so here we
-      // make it explicit that it does not care about acked sequence numbers
-      self.history_buffer.first_change_sequence_number()
+      // Stateless-like writer currently supports only BestEffort behavior, so it does
+      // not care about acked sequence numbers: everything written so far counts as
+      // acknowledged, and only the depth is kept.
+      max(
+        self.history_buffer.last_change_sequence_number().plus_1() - SequenceNumber::from(depth),
+        self.history_buffer.first_change_sequence_number(),
+      )
     };
 
     // actual cleaning
